@@ -146,6 +146,16 @@ def _pair_specs(rng, D, N, order):
                   st.Burgers(D, L, N, dt, diffusivity=nu, convection_scale=b, single_channel=True, conservative=True, order=order),
                   gen.GeneralNonlinearStepper(D, L, N, dt, linear_coefficients=(0.0, 0.0, nu),
                                               nonlinear_coefficients=(0.0, -b, 0.0), order=order)))
+    # the square term of the general nonlinear family: b0 u² is what FisherKPP's −r u² and the polynomial family's c2 u² are
+    pairs.append(("FisherKPP~GeneralNonlinear(square term)", 1,
+                  rea.FisherKPP(D, L, N, dt, diffusivity=nu, reactivity=r, order=order),
+                  gen.GeneralNonlinearStepper(D, L, N, dt, linear_coefficients=(r / D, 0.0, nu),
+                                              nonlinear_coefficients=(-r, 0.0, 0.0), order=order)))
+    pairs.append(("GeneralPolynomial~GeneralNonlinear(square term)", 1,
+                  gen.GeneralPolynomialStepper(D, L, N, dt, linear_coefficients=(0.0, 0.0, nu),
+                                               polynomial_coefficients=(0.0, 0.0, b), order=order),
+                  gen.GeneralNonlinearStepper(D, L, N, dt, linear_coefficients=(0.0, 0.0, nu),
+                                              nonlinear_coefficients=(b, 0.0, 0.0), order=order)))
     if D == 2:
         pairs.append(("NavierStokesVorticity~GeneralVorticityConvection", 1,
                       st.NavierStokesVorticity(D, L, N, dt, diffusivity=nu, vorticity_convection_scale=abs(b) + 0.1,
